@@ -92,6 +92,19 @@ func distinct(beh []map[string]any) []map[string]any {
 func sprinkle(r *rand.Rand, ops []opSpec) []opSpec {
 	var out []opSpec
 	for _, o := range ops {
+		// the model's two populated ancestors stand for "similar to the content"
+		// and "differs from it in the middle"; concretely also the previous
+		// snapshot resp. unrelated trees
+		if o.Op == "Scan" && o.Anc == "src" && r.Intn(4) == 0 {
+			o.Anc = "prev"
+		} else if o.Op == "Scan" && o.Anc == "srcmid" {
+			switch r.Intn(4) {
+			case 0:
+				o.Anc = "junk"
+			case 1:
+				o.Anc = "big"
+			}
+		}
 		if o.Op != "Edit" {
 			if r.Intn(3) == 0 {
 				out = append(out, opSpec{Op: "Edit", Kind: "mod"})
@@ -123,7 +136,12 @@ func bind(r *rand.Rand, i int, algos []string, ops []opSpec, src string, model m
 	if src == "rand" {
 		bulkEvery = 3
 	}
-	if r.Intn(bulkEvery) == 0 {
+	bulky := r.Intn(bulkEvery) == 0
+	if largeAncestor(ops) {
+		// large ancestors are baselines for large snapshots
+		bulky = r.Intn(3) > 0
+	}
+	if bulky {
 		cs.Bulk = 100 + r.Intn(80)
 	}
 	if model != nil {
@@ -163,15 +181,70 @@ func bind(r *rand.Rand, i int, algos []string, ops []opSpec, src string, model m
 		}
 	}
 	if cs.Max > 0 {
-		cs.Bulk = 0
+		// the limit sits above the populated tree and below the grown one
+		cs.Max = cs.Bulk + 80
 	}
 	return cs
 }
 
+func largeAncestor(ops []opSpec) bool {
+	for _, o := range ops {
+		if o.Op == "Scan" && (o.Anc == "src" || o.Anc == "srcmid" || o.Anc == "big") {
+			return true
+		}
+	}
+	return false
+}
+
+// ancestorHistory: scans that return no content or are refused (TryAgain) while
+// the client holds no snapshot bytes yet, each with another ancestor, and then
+// the first populated snapshot with yet another one.
+func ancestorHistory(r *rand.Rand) []opSpec {
+	kinds := []string{"src", "srcmid", "big", "src", "srcmid", "prev", "nil", "junk"}
+	pick := func(not string) string {
+		for {
+			k := kinds[r.Intn(len(kinds))]
+			if k != not {
+				return k
+			}
+		}
+	}
+	x := pick("")
+	y := pick(x)
+	var ops []opSpec
+	if r.Intn(2) == 0 {
+		ops = append(ops, opSpec{Op: "Edit", Kind: "rm"}, opSpec{Op: "Scan", Anc: x, Full: r.Intn(2) == 0})
+		if r.Intn(2) == 0 {
+			ops = append(ops, opSpec{Op: "Scan", Anc: pick(x)})
+		}
+		ops = append(ops, opSpec{Op: "Edit", Kind: "mk"})
+	} else {
+		ops = append(ops, opSpec{Op: "Edit", Kind: "grow"}, opSpec{Op: "Scan", Anc: x, Full: r.Intn(2) == 0})
+		if r.Intn(3) == 0 {
+			ops = append(ops, opSpec{Op: "Edit", Kind: "rm"}, opSpec{Op: "Scan", Anc: pick(x)}, opSpec{Op: "Edit", Kind: "mk"})
+		} else {
+			ops = append(ops, opSpec{Op: "Edit", Kind: "shrink"})
+		}
+	}
+	ops = append(ops, opSpec{Op: "Scan", Anc: y, Full: r.Intn(2) == 0}, opSpec{Op: "Scan", Anc: pick(y)})
+	return ops
+}
+
 func randomOps(r *rand.Rand, n int) []opSpec {
 	var ops []opSpec
-	ancs := []string{"nil", "prev", "src", "junk"}
+	ancs := []string{"nil", "prev", "src", "junk", "srcmid", "big"}
 	grown := false
+	if r.Intn(2) == 0 {
+		ops = ancestorHistory(r)
+		for _, o := range ops {
+			if o.Kind == "grow" {
+				grown = true
+			}
+			if o.Kind == "shrink" {
+				grown = false
+			}
+		}
+	}
 	for len(ops) < n {
 		switch k := r.Intn(20); {
 		case k < 5:
